@@ -12,12 +12,16 @@ PY = '/venv/bin/python'
 
 
 def main(argv):
-    seeds = argv or [os.path.basename(d) for d in sorted(glob.glob(os.path.join(vf.ROOT, 'seeded', '*')))
+    seeds = [a for a in argv if a != '--resume'] or [os.path.basename(d) for d in sorted(glob.glob(os.path.join(vf.ROOT, 'seeded', '*')))
                      if os.path.isdir(d)]
     bad = 0
+    skip_done = '--resume' in argv
+    head = subprocess.check_output(['git', '-C', '/repo', 'rev-parse', '--short', 'HEAD']).decode().strip()
     for s in seeds:
         mp = os.path.join(vf.ROOT, 'seeded', s, 'meta.json')
         meta = json.load(open(mp))
+        if skip_done and (meta.get('last_verified') or {}).get('repo_head') == head:
+            continue
         checks = list(dict.fromkeys((meta.get('expected_checks') or []) + (meta.get('caught_by') or [])))
         out = subprocess.run([PY, '-m', 'vf.seedtest', os.path.join('seeded', s), '--checks'] + checks + ['--confirm'],
                              cwd=vf.ROOT, capture_output=True, text=True).stdout
@@ -29,7 +33,7 @@ def main(argv):
         ok_demo = '"demo_with_patch_exit": 1' in out and '"demo_without_patch_exit": 0' in out
         meta['caught_by'] = caught
         meta['expected_checks'] = caught or checks
-        meta['last_verified'] = {'tests_pass_with_patch': ok_tests, 'demo_discriminates': ok_demo, 'checks_run': checks}
+        meta['last_verified'] = {'repo_head': head, 'tests_pass_with_patch': ok_tests, 'demo_discriminates': ok_demo, 'checks_run': checks}
         json.dump(meta, open(mp, 'w'), indent=1)
         flag = '' if (caught and ok_tests and ok_demo) else '   <-- ATTENTION'
         if flag:
